@@ -433,7 +433,10 @@ func (t *c01Track) final(out *lookupOutcome) bool {
 		return false
 	}
 	for _, e := range t.l.events {
-		if e.ev.Request != nil {
+		// (a request scheduled in the very step in which the search phase ended may find its path context
+		// already cancelled before it dials - which of the two its goroutine sees first is decided by the
+		// runtime - so only requests scheduled in earlier steps must show up on the network)
+		if e.ev.Request != nil && e.step < t.termStep {
 			for _, p := range e.ev.Request.Waiting {
 				if !t.requested[p.Peer] {
 					x.Failf("C01/event-request-without-request", "a request event names %s but the network never saw a dial or request to it", w.Name(p.Peer))
